@@ -29,6 +29,8 @@ def expr_str(e):
         return "(" + expr_str(e[1]) + " " + k + " " + expr_str(e[2]) + ")"
     if k == "^":
         return "(" + expr_str(e[1]) + ")^(" + expr_str(e[2]) + ")"
+    if k == "neg":      # unary minus written directly in front of its operand: -(x)^(n) means -((x)^(n))
+        return "-" + expr_str(e[1])
     if k in ("exp", "log", "abs"):
         return k + "(" + expr_str(e[1]) + ")"
     if k == "heaviside":
@@ -66,6 +68,8 @@ def expr_eval(e, state, params, t=0.0, vol=1.0):
         return expr_eval(e[1], state, params, t, vol) / expr_eval(e[2], state, params, t, vol)
     if k == "^":
         return expr_eval(e[1], state, params, t, vol) ** expr_eval(e[2], state, params, t, vol)
+    if k == "neg":
+        return -expr_eval(e[1], state, params, t, vol)
     if k == "exp":
         return math.exp(expr_eval(e[1], state, params, t, vol))
     if k == "log":
